@@ -165,3 +165,16 @@ SPEC = {
         ],
     },
 }
+
+# Entries delivered next to their check package (harness/<pkg>/SPEC.py.txt).
+import glob as _glob, os as _os
+for _f in sorted(_glob.glob(_os.path.join(_os.path.dirname(_os.path.abspath(__file__)), "harness", "*", "SPEC.py.txt"))):
+    _d = eval("{" + open(_f).read() + "}")
+    for _k, _v in _d.items():
+        if _k in SPEC:
+            # a property served by several packages: concatenate the parts and the texts
+            SPEC[_k]["parts"] = _v["parts"] + SPEC[_k]["parts"]
+            SPEC[_k]["rule"] = _v["rule"] + " " + SPEC[_k]["rule"]
+            SPEC[_k]["assumptions"] = _v.get("assumptions", []) + SPEC[_k].get("assumptions", [])
+        else:
+            SPEC[_k] = _v
